@@ -78,7 +78,7 @@ CLAIMED["C01"] = dict(
          "over every length residue, every Grouped and custom-logic dictionary class plus one class per (type, vendor-ness) "
          "with symbolic leaf values (all 206 classes x residues in thorough), nested Grouped AVPs to depth 3/4, same-code siblings "
          "with free flags/data at three levels (so byte-equal siblings arise as solver cases), flag-setter sequences, "
-         "Request/Answer constructors. Each query is one bytes equality over symbolic content; CrossHair closes "
+         "Request/Answer constructors, and messages derived by DiameterMessage.convert() / copy() / DiameterAVP.convert() (result and source). Each query is one bytes equality over symbolic content; CrossHair closes "
          "every path, counterexamples are replayed natively.",
     note="Trusted: CrossHair, z3, the reference encoder, the frozen reference dictionary (ref/avp_dictionary.json). One "
          "dimension is symbolic per query; shapes and lengths are grid parameters (data <= 9 bytes per leaf, <= 3 top-level "
@@ -116,7 +116,8 @@ CLAIMED["C13"] = dict(
          "Hop-by-Hop/End-to-End and Session-Id bytes are solver variables; CrossHair shows for all of them that exactly the "
          "registered handler ran once, exactly one answer reached the worker of the request's application, and that the "
          "fallback is a DIAMETER_UNABLE_TO_COMPLY answer with the request's ids and Session-Id, local origin and the requester "
-         "as destination.",
+         "as destination. Handler outcomes include exceptions without arguments, a bare assert, a chained exception with non-str "
+         "arguments, an int and a freshly built request.",
     note="Trusted: CrossHair, z3, Barrier/lock/queue stand-ins, log records dropped. Bounds: 2 applications x 2 command codes "
          "(5 table shapes), same-named and distinctly named handlers. Outside: unregistered pairs, requests lacking "
          "Session-Id/Origin-Host/Origin-Realm.")
@@ -165,7 +166,8 @@ CLAIMED["C03"] = dict(
          "small raw buffers); CrossHair shows the result is a list or a library error and the fuel never runs out. Node: the same "
          "bytes are delivered to a live association on a stand-in transport (real reader, receive-worker iteration and state "
          "machine ticks); no exception escapes, no lock stays held, a following well-formed request is still delivered and "
-         "send_message/close return.",
+         "send_message/close return. A framed-but-malformed message is also placed between well-formed ones with the reads cut at "
+         "every offset of the following message (solver-enumerated) and inside the preceding one (grid).",
     note="Trusted: CrossHair (+P2 slice-bound normalisation), z3, stand-in transport, reference encoder. In-range length "
          "values are enumerated natively (finite class). Open known finding: an invalid DWA parks the node in Closing without "
          "a DPR. Outside: multi-field corruption beyond the raw-buffer bound; states other than Open (C06).")
@@ -178,7 +180,9 @@ CLAIMED["C04"] = dict(
          "requests are answered in order. (ii) TcpConnection._run/read, recv_message_from_queue, the state-machine loop and "
          "get_message are re-compiled from source as coroutines on stand-in Lock/Event/Queue/selector objects; a network thread "
          "delivers later segments at arbitrary moments; every scheduling decision is a boolean solver variable and CrossHair "
-         "enumerates all schedules within the preemption bound (statement-level preemption inside read() and the receive worker).",
+         "enumerates all schedules within the preemption bound (statement-level preemption inside read() and the receive worker). "
+         "(iii) The state machine -> consumer hand-over is explored in isolation with a preemption point before every statement of "
+         "get_message / get_postprocess_recv_message / notify_postprocess_message.",
     note="Trusted: CrossHair, z3, stand-in primitives and scheduler (vf/cosched.py, vf/conode.py), reference encoder. Bounds: "
          "<= 3 messages, <= 3 cuts, <= 1 (quick) / 2 (thorough) preemptions, K <= 64 decisions. Outside: bytecode-level "
          "preemption, real kernel sockets, SCTP, freely scheduled idle ticks. Two genuine defects found and fixed (no "
@@ -243,7 +247,8 @@ CLAIMED["C14"] = dict(
          "CrossHair exhausts all schedules within the preemption bound: each caller must get the answer object whose Hop-by-Hop "
          "equals its request's, nobody is left blocked (Deadlock is the violation witness), the registry ends empty. Whatever "
          "threading primitives PendingAnswer and its class hold (Event, Lock, Condition, under any attribute name) are replaced by "
-         "scheduler stand-ins after the real constructor ran.",
+         "scheduler stand-ins after the real constructor ran; the Worker objects are built by the real Worker constructor from a "
+         "stand-in manager, and one query puts two callers on two Diameter interfaces with the SAME Hop-by-Hop identifier.",
     note="Trusted: CrossHair path enumeration, the coroutiniser, stand-in Lock/Event/Queue/Barrier, 'timeouts fire only at "
          "quiescence'. The solver prunes nothing in the schedule dimension (stated in DESIGN 2.4). Bounds: k<=2 callers (quick), "
          "preemption budgets as listed in the evidence; outside: same Hop-by-Hop twice (C15), bytecode-level preemption.")
